@@ -9,9 +9,11 @@ from harness import gen
 from harness.framework import Suite
 
 PID = "C18"
-LEAN_MODS = ["SwcVerif.Props.C18", "SwcVerif.Props.C05", "SwcVerif.Props.C18Gen", "SwcVerif.Props.C18GenRepair"]
-TRANSLATE_ALGO = ["AlgoDsu", "AlgoCheckers", "AlgoNormalizer", "AlgoSort", "AlgoRepair"]   # Gen/AlgoDsu.lean, Gen/AlgoCheckers.lean are regenerated from swcgeom/utils/dsu.py, swc_utils/base.py::get_dsu and swc_utils/checker.py::has_cyclic / is_bifurcate on every run
-DRIVER_FILES = ["SwcVerif/Model/AlgoRunDsu.lean", "SwcVerif/Model/AlgoRunNormalizer.lean", "SwcVerif/Model/AlgoRunRepair.lean"]
+LEAN_MODS = ["SwcVerif.Props.C18", "SwcVerif.Props.C05", "SwcVerif.Props.C18Gen", "SwcVerif.Props.C18GenRepair",
+             "SwcVerif.Props.C18Wrap", "SwcVerif.Props.C03Gen"]
+TRANSLATE_ALGO = ["AlgoDsu", "AlgoCheckers", "AlgoNormalizer", "AlgoSort", "AlgoRepair", "AlgoCtor"]   # Gen/AlgoDsu.lean, Gen/AlgoCheckers.lean are regenerated from swcgeom/utils/dsu.py, swc_utils/base.py::get_dsu and swc_utils/checker.py::has_cyclic / is_bifurcate on every run
+DRIVER_FILES = ["SwcVerif/Model/AlgoRunDsu.lean", "SwcVerif/Model/AlgoRunNormalizer.lean", "SwcVerif/Model/AlgoRunRepair.lean",
+                "SwcVerif/Model/AlgoRunCtor.lean", "SwcVerif/Model/PyCtor.lean"]
 THEOREMS = [
     "C18.dsu_refines_partition", "C18.runOps_cons", "C18.invalid_rejected", "C18.hasCyclic_spec", "C18.isBifurcate_correct",
     "C18.jumpPass_stop", "C18.getDsu_fixpoint", "C18.getDsu_sorted_forest", "Dsu.jumpLoop_forest", "C18.getDsu_forest", "C18.forest_single_label_iff", "Dsu.jumpLoop_conn", "C18.getDsu_labels_are_components", "C18.repair_somas", "C18.repair_nearest_partial", "Dsu.linkLoop_inv", "C18.repair_nearest_tree", "Dsu.cycle_strict", "Dsu.jumpLoop_terminates", "C18.getDsu_total", "C18.isSingleRoot_total",
@@ -29,6 +31,14 @@ THEOREMS = [
     "C18.generated_repair_nearest_tree",
     "C18.generated_readFix_unknown_raises", "C18.generated_readFix_few_roots", "C18.generated_readFix_plain", "C18.checkStage_total",
     "C18.generated_readFix_somas", "C18.generated_readFix_nearest",
+    # the spellings users call, as generated on this run (Gen/AlgoCtor.lean): deprecated checker names, the copying normalizer spellings
+    "RefineCtor.is_binary_tree_eq", "RefineCtor.check_single_root_eq", "C18.generated_is_binary_tree_eq_model", "C18.generated_is_binary_tree_correct",
+    "C18.generated_check_single_root_eq_model", "C18.generated_check_single_root_total",
+    "RefineCtor.copy_and_apply_spec", "RefineCtor.copy_and_apply_lift", "RefineCtor.pure_of_eq",
+    "RefineCtor.mark_roots_as_somas_eq", "RefineCtor.reset_index_eq", "RefineCtor.sort_nodes_eq", "RefineCtor.link_roots_to_nearest_eq",
+    "C18.generated_mark_roots_as_somas_eq_model", "C18.generated_reset_index_copy",
+    "C03.generated_copy_and_apply_pure", "C03.generated_mark_roots_as_somas_pure", "C03.generated_reset_index_pure", "C03.generated_sort_nodes_pure",
+    "C03.generated_link_roots_to_nearest_pure",
 ]
 TRUSTED = ["hand-written models Model/Dsu.lean of DisjointSetUnion, has_cyclic, is_bifurcate, get_dsu / is_single_root, mark_roots_as_somas_, "
            "link_roots_to_nearest_ (tied by the c18.* correspondence suites: union/find scripts, ALL parent tables with n ≤ 5, random larger ones, multi-root files)"]
@@ -37,6 +47,64 @@ ASSUMPTIONS = [
     "nearest-root repair: Euclidean norms are compared through their squares; generated clouds have pairwise distinct squared distances (no argmin ties)",
     "recursion depth of find_parent (bounded by the rank, which is at most log2 n) is not part of the model",
 ]
+
+
+# ---------------------------------------------------------------- the copying spellings of the normalizer, on whole frames
+
+BYSTANDER = "7,8 / -1,7 / 1,2 / 4,4"      # object 0 of the heap the driver op `gcopying` starts from (Model/AlgoRunCtor.lean)
+
+
+def frame_cols(df):
+    return {"ids": [int(v) for v in df["id"]], "pids": [int(v) for v in df["pid"]], "types": [int(v) for v in df["type"]],
+            "rs": [int(round(4 * float(v))) for v in df["r"]], "x": [int(v) for v in df["x"]], "y": [int(v) for v in df["y"]],
+            "z": [int(v) for v in df["z"]]}
+
+
+def copying_frames(text):
+    """every copying spelling on the frame read from `text` (and `sort_nodes` also on the somas-repaired frame, which has one root):
+    [op, input columns, result columns | exception, input columns AFTER the call, does any result column share memory with the input]"""
+    from swcgeom.core.swc_utils import link_roots_to_nearest, mark_roots_as_somas, read_swc, reset_index, sort_nodes
+
+    out = []
+    with warnings.catch_warnings():
+        warnings.simplefilter("ignore")
+        raw, _ = read_swc(io.StringIO(text), fix_roots=False, reset_index=False)
+        fixed = mark_roots_as_somas(raw)
+        for op, fn, src in (("somas", mark_roots_as_somas, raw), ("somas/ut=5", lambda d: mark_roots_as_somas(d, 5), raw),
+                            ("somas/ut=F", lambda d: mark_roots_as_somas(d, update_type=False), raw),
+                            ("nearest", link_roots_to_nearest, raw), ("reset", reset_index, raw), ("sort", sort_nodes, raw), ("sort", sort_nodes, fixed)):
+            before = frame_cols(src)
+            try:
+                r = fn(src)
+                got = frame_cols(r)
+                shares = any(np.shares_memory(r[c].to_numpy(), src[c].to_numpy()) for c in r.columns) or r is src
+            except Exception as e:  # noqa: BLE001
+                got, shares = {"exc": type(e).__name__}, False
+            out.append([op, before, got, frame_cols(src), bool(shares)])
+    return out
+
+
+def copying_lines(rows):
+    """the definitions generated from the copying spellings on this run, on a heap [bystander, input]: result frame | input after | bystander | refs"""
+    fr = lambda c: " / ".join(gen.ints(c[k]) for k in ("ids", "pids", "types", "rs"))
+    out = []
+    for op, before, got, after, _ in rows:
+        o, _, ut = op.partition("/ut=")
+        line = (f"gcopying op={o} ids={gen.ints(before['ids'])} pids={gen.ints(before['pids'])} types={gen.ints(before['types'])} rs={gen.ints(before['rs'])}"
+                + ("" if ut == "F" else f" ut={ut or 1}" if o == "somas" else "")
+                + (f" x={gen.ints(before['x'])} y={gen.ints(before['y'])} z={gen.ints(before['z'])}" if o == "nearest" else ""))
+        out.append((line, "E" if "exc" in got else f"{fr(got)} | {fr(after)} | {BYSTANDER} | 1 2 3"))
+    return out
+
+
+def copying_oracle(rows):
+    out = []
+    for op, before, got, after, shares in rows:
+        if after != before:
+            out.append((f"copying-mutates/{op}", f"{op}: the frame handed in changed: {before} → {after}"))
+        if shares:
+            out.append((f"copying-shares/{op}", f"{op}: the result shares memory with the frame handed in"))
+    return out
 
 
 # ---------------------------------------------------------------- truth, computed independently
@@ -307,6 +375,8 @@ class Checkers(Suite):
 
         with _w.catch_warnings():
             _w.simplefilter("ignore")
+            res["alias"] = {"single": bool(_ck.check_single_root(df)), "bin1": bool(_ck.is_binary_tree(df)),
+                            "bin1e": bool(_ck.is_binary_tree(df, exclude_root=True)), "bin0": bool(_ck.is_binary_tree(df, exclude_root=False))}
             res["aliases_same"] = bool(_ck.check_single_root(df) == res["single_root"] and _ck.is_binary_tree(df) == res["bif1"]
                                        and _ck.is_binary_tree(df, exclude_root=False) == res["bif0"])
         return res
@@ -324,6 +394,12 @@ class Checkers(Suite):
             out = [x for x in out if not x[0].startswith(("getdsu", "ggetdsu"))]
         if not case.get("big"):
             out.append(("gsingleroot " + a, tf(res["single_root"])))     # the definition generated from is_single_root on this run
+        # the deprecated spellings as generated on this run (Gen/AlgoCtor.lean), against what THEY answered (`excl` omitted = the default)
+        al = res.get("alias")
+        if al:
+            out += [("gwrap op=binary " + a, tf(al["bin1"])), ("gwrap op=binary excl=1 " + a, tf(al["bin1e"])), ("gwrap op=binary excl=0 " + a, tf(al["bin0"]))]
+            if not case.get("big"):
+                out.append(("gwrap op=singleroot " + a, tf(al["single"])))
         if "cyclic" in res:
             out.append(("hascyclic " + a, tf(res["cyclic"])))
             out.append(("ghascyclic " + a, tf(res["cyclic"])))     # the definition generated from has_cyclic on this run
@@ -478,12 +554,15 @@ class Repair(Suite):
                                   "input_unchanged": bool(raw.equals(keep))}
         except Exception as e:  # noqa: BLE001
             res["copying"] = {"exc": type(e).__name__, "msg": str(e)[:200]}
+        # ... and every one of them (sort_nodes included) with the whole frames: the result AND the frame handed in after the call
+        res["gcopying"] = copying_frames(text)
         return res
 
     def lines(self, case, res):
         out = []
         a = f"ids={gen.ints(case['ids'])} pids={gen.ints(case['pids'])}"
         nroots = sum(1 for p in case["pids"] if p == -1)
+        out += copying_lines(res.get("gcopying", []))
         if "exc" not in res.get("somas", {"exc": 1}) and nroots > 1:
             out.append((f"somas {a} types={gen.ints(case['types'])} ut=1", f"{gen.ints(res['somas']['pid'])} / {gen.ints(res['somas']['type'])}"))
             # the definition generated from mark_roots_as_somas_ on this run (translator cross-check)
@@ -546,6 +625,7 @@ class Repair(Suite):
             _, nc = components(n, pp)
             if nc != 1 or has_cycle(n, pp):
                 out.append((f"repair-not-a-tree/{mode}", f"fix_roots={mode}: result has {nc} component(s), cycle={has_cycle(n, pp)}: {rp}"))
+        out += copying_oracle(res.get("gcopying", []))
         c = res.get("copying", {})
         if "exc" in c:
             out.append(("copying-repair-raises", f"{c['exc']}: {c['msg']}"))
